@@ -6,7 +6,7 @@
    the same result.
    (3) fraction_free_gauss_jordan_solve (pivot = true) and inverse_gauss_jordan on square
    systems: an Ok result is the solution / the inverse, and the result is Ok exactly when
-   the matrix is non-singular (otherwise the row exchange runs off the vector: ErrOOB). *)
+   the matrix is non-singular (otherwise the routine throws: ErrExn EXN_RANKDEF, since the repair 093e8f2). *)
 From SE Require Import C24.DenseModel C24.DenseBase C24.DenseSpec C24.DenseOps C24.DenseOps2 C24.DenseGJ C24.DenseGJ2 C24.DenseFFGJ.
 From Coq Require Import Lia ZifyBool ZifyNat ZifyN.
 Local Open Scope N_scope.
@@ -462,7 +462,7 @@ Qed.
 (* ================================================================== the solver *)
 (* fraction_free_gauss_jordan_solve(A, b, x, pivot = true) on a square system: the same
    elimination applied to the pair (A_, b_); index = i in every column, a column without
-   pivot makes the row exchange index row `col` (ErrOOB).  Partial correctness: an Ok result
+   pivot makes the routine throw (ErrExn EXN_RANKDEF).  Partial correctness: an Ok result
    solves A x = b. *)
 
 Ltac ffs_cases :=
@@ -503,6 +503,7 @@ Definition ffs_body (col bcol : N) (i : N) (st : list qx * list qx) : res (list 
   let (am, bm) := st in
   do d <- (if 0 <? i then do d <- rd am (i * col - col + i - 1); Ok (Some d) else Ok None);
   do st <- (do p <- ffgj_find (N.to_nat (col - i)) i am col i;
+            if p =? col then ErrExn EXN_RANKDEF else
             if p =? i then Ok (am, bm) else
             do am <- ffs_swap_a col i p am;
             do bm <- row_exchange bm bcol p i;
@@ -699,7 +700,7 @@ Definition ffs_stuck (n s : N) (G0 : fm) (i : N) : Prop :=
 Lemma ffs_step n s G0 i st :
   i < n -> ffs_inv n s G0 i st ->
   (exists st', ffs_body n s i st = Ok st' /\ ffs_inv n s G0 (i + 1) st') \/
-  ((exists a b, ffs_body n s i st = ErrOOB a b) /\ ffs_stuck n s G0 i).
+  (ffs_body n s i st = ErrExn EXN_RANKDEF /\ ffs_stuck n s G0 i).
 Proof.
   destruct st as [am bm]. intros Hi (MA & MB & d & HRa & HRb & HE & Hd & Hd1 & Hdiag).
   unfold ffs_body.
@@ -720,11 +721,11 @@ Proof.
   rewrite Ep. cbn [bind].
   destruct (N.eq_dec p n) as [->|npn].
   - right. split.
-    + destruct (N.eqb_spec n i); [lia|]. destruct HRa as [HLa _].
-      destruct (ffs_swap_a_oob am n i HLa Hi) as (a & b & Eo). rewrite Eo. cbn [bind]. eauto.
+    + rewrite N.eqb_refl. reflexivity.
     + exists MA, MB, d. split; [assumption|]. split; [assumption|]. split; [assumption|].
       intros t Ht1 Ht2. apply Hz. lia.
   - left. assert (Hpn : p < n) by lia. specialize (Hnz Hpn).
+    destruct (N.eqb_spec p n) as [?|_]; [contradiction|].
     assert (Hsw : exists am1 bm1,
       (if p =? i then Ok (am, bm) else
        do am0 <- ffs_swap_a n i p am; do bm0 <- row_exchange bm s p i; Ok (am0, bm0))
@@ -802,7 +803,7 @@ Proof.
   apply (for_range_inv_ok (ffs_inv n s (aug n (fm_of A) (fm_of b))) 0 n (ffs_body n s)
            (dm A, dm b) st); [lia | exact E | now apply ffs_inv_init |].
   - intros k s0 s' [_ Hk] Hinv Eb.
-    destruct (ffs_step n s _ k s0 Hk Hinv) as [(st' & E' & Hinv') | [(a & c & E') _]];
+    destruct (ffs_step n s _ k s0 Hk Hinv) as [(st' & E' & Hinv') | [E' _]];
       rewrite E' in Eb; [|discriminate].
     inversion Eb; subst. assumption.
 Qed.
@@ -1091,4 +1092,95 @@ Proof.
     unfold wf, setm. cbn [dm drow dcol]. now rewrite HLb, HrB, HcB. }
   destruct Hok as (B' & E). exists B'. split; [exact E|].
   now apply (inverse_gauss_jordan_correct A B n B').
+Qed.
+
+(* ------------------------------------------------------------------ the whole picture *)
+(* a loop whose body may throw: either every iteration succeeds (invariant) or the first
+   throwing iteration ends the loop with that exception *)
+Lemma for_up_inv_exn {St} (P : N -> St -> Prop) (Q : Prop) c n i (body : N -> St -> res St) s :
+  P i s ->
+  (forall k s, i <= k < i + N.of_nat n -> P k s ->
+     (exists s', body k s = Ok s' /\ P (k + 1) s') \/ (body k s = ErrExn c /\ Q)) ->
+  (exists s', for_up n i body s = Ok s' /\ P (i + N.of_nat n) s')
+  \/ (for_up n i body s = ErrExn c /\ Q).
+Proof.
+  revert i s. induction n as [|n IH]; intros i s H0 Hstep.
+  - left. exists s. split; [reflexivity|]. now replace (i + N.of_nat 0) with i by lia.
+  - destruct (Hstep i s ltac:(lia) H0) as [(s1 & E1 & P1) | [E1 HQ]].
+    + destruct (IH (i + 1) s1 P1) as [(s2 & E2 & P2) | [E2 HQ]].
+      { intros k s' Hk. apply Hstep. lia. }
+      * left. exists s2. split; [rewrite for_up_S, E1; exact E2|].
+        now replace (i + N.of_nat (S n)) with (i + 1 + N.of_nat n) by lia.
+      * right. split; [rewrite for_up_S, E1; exact E2 | exact HQ].
+    + right. split; [rewrite for_up_S, E1; reflexivity | exact HQ].
+Qed.
+
+Lemma ffs_loop_dichotomy A b n s :
+  good A n n -> good b n s ->
+  (exists st, for_range 0 n (ffs_body n s) (dm A, dm b) = Ok st /\
+     ffs_inv n s (aug n (fm_of A) (fm_of b)) n st)
+  \/ (for_range 0 n (ffs_body n s) (dm A, dm b) = ErrExn EXN_RANKDEF /\
+      ~ nonsingular n (fm_of A)).
+Proof.
+  intros HGA HGb. unfold for_range.
+  destruct (for_up_inv_exn (ffs_inv n s (aug n (fm_of A) (fm_of b))) (~ nonsingular n (fm_of A))
+              EXN_RANKDEF (N.to_nat (n - 0)) 0 (ffs_body n s) (dm A, dm b))
+    as [(st & E & Hinv) | H].
+  - now apply ffs_inv_init.
+  - intros k s0 Hk Hinv. assert (Hkn : k < n) by lia.
+    destruct (ffs_step n s _ k s0 Hkn Hinv) as [H | [E Hst]]; [left; exact H|].
+    right. split; [exact E|]. exact (ffs_stuck_singular n s _ _ k Hkn Hst).
+  - left. exists st. split; [exact E|].
+    now replace n with (0 + N.of_nat (N.to_nat (n - 0))) at 3 by lia.
+  - right. exact H.
+Qed.
+
+(* since the repair 093e8f2 the solver never leaves its vectors: it returns the solution of
+   a non-singular system and throws "Matrix is rank deficient" otherwise *)
+Theorem ffgj_solve_dichotomy A b x n s :
+  good A n n -> good b n s -> wf x -> drow x = n -> dcol x = s ->
+  (exists x', fraction_free_gauss_jordan_solve A b x true = Ok x' /\
+     good x' n s /\ fm_eq n s (fm_mul n (fm_of A) (fm_of x')) (fm_of b))
+  \/ (fraction_free_gauss_jordan_solve A b x true = ErrExn EXN_RANKDEF /\
+      ~ nonsingular n (fm_of A)).
+Proof.
+  intros HGA HGb Wx Hrx Hcx.
+  destruct (ffs_loop_dichotomy A b n s HGA HGb)
+    as [([am bm] & E1 & MA & MB & d & HRa & HRb & HE & Hd & _ & Hdiag) | [E1 Hs]].
+  - left.
+    assert (Hok : exists x', fraction_free_gauss_jordan_solve A b x true = Ok x').
+    { rewrite ffs_unfold.
+      pose proof HGA as (_ & _ & _ & HcA). pose proof HGb as (_ & _ & _ & Hcb). rewrite HcA, Hcb.
+      rewrite E1. cbn [bind].
+      destruct (ffs_back_spec am bm (dm x) n s MA MB d HRa HRb) as (xm & Ex & HRx).
+      { unfold wf in Wx. now rewrite Wx, Hrx, Hcx. }
+      { assumption. }
+      { intros a Ha. rewrite Hdiag by lia. now rewrite N.eqb_refl. }
+      rewrite Ex. cbn [bind]. eauto. }
+    destruct Hok as (x' & E). exists x'. split; [exact E|].
+    now apply (ffgj_solve_correct A b x n s x').
+  - right. split; [|exact Hs]. rewrite ffs_unfold.
+    pose proof HGA as (_ & _ & _ & HcA). pose proof HGb as (_ & _ & _ & Hcb). rewrite HcA, Hcb.
+    rewrite E1. reflexivity.
+Qed.
+
+Theorem inverse_gauss_jordan_dichotomy A B n :
+  good A n n -> wf B -> drow B = n -> dcol B = n ->
+  (exists B', inverse_gauss_jordan A B = Ok B' /\
+     good B' n n /\ fm_eq n n (fm_mul n (fm_of A) (fm_of B')) fm_id)
+  \/ (inverse_gauss_jordan A B = ErrExn EXN_RANKDEF /\ ~ nonsingular n (fm_of A)).
+Proof.
+  intros HGA WB HrB HcB.
+  rewrite igj_unfold. pose proof HGA as (_ & _ & HrA & _). rewrite HrA.
+  destruct (igj_init_spec n (dm B)) as (em & bm & Ei & HRe & HLb).
+  { unfold wf in WB. now rewrite WB, HrB, HcB. }
+  rewrite Ei. cbn [bind fst snd].
+  destruct (repr_good em n n fm_id (mkmat n n em) HRe eq_refl eq_refl) as [HGe Hfe].
+  change (setm (mkmat n n em) em) with (mkmat n n em) in HGe, Hfe.
+  destruct (ffgj_solve_dichotomy A (mkmat n n em) (setm B bm) n n HGA HGe)
+    as [(B' & E & GB' & Hm) | [E Hs]]; try assumption.
+  - unfold wf, setm. cbn [dm drow dcol]. now rewrite HLb, HrB, HcB.
+  - left. exists B'. split; [exact E|]. split; [exact GB'|].
+    intros i j Hi Hj. rewrite (Hm i j Hi Hj). symmetry. now apply Hfe.
+  - right. split; assumption.
 Qed.
